@@ -31,14 +31,14 @@ namespace foonathan
                 // memory is taken from fixed_memory_stack, it must be sufficient
                 free_list_array(fixed_memory_stack& stack, const char* end,
                                 std::size_t max_node_size) noexcept
-                : no_elements_(AccessPolicy::index_from_size(max_node_size) - min_size_index + 1)
+                : no_elements_(AccessPolicy::index_from_size(max_node_size) - min_size_index() + 1)
                 {
                     array_ = static_cast<FreeList*>(
                         stack.allocate(end, no_elements_ * sizeof(FreeList), alignof(FreeList)));
                     FOONATHAN_MEMORY_ASSERT_MSG(array_, "insufficient memory for free lists");
                     for (std::size_t i = 0u; i != no_elements_; ++i)
                     {
-                        auto node_size = AccessPolicy::size_from_index(i + min_size_index);
+                        auto node_size = AccessPolicy::size_from_index(i + min_size_index());
                         ::new (static_cast<void*>(array_ + i)) FreeList(node_size);
                     }
                 }
@@ -68,9 +68,9 @@ namespace foonathan
                 FreeList& get(std::size_t node_size) const noexcept
                 {
                     auto i = AccessPolicy::index_from_size(node_size);
-                    if (i < min_size_index)
-                        i = min_size_index;
-                    return array_[i - min_size_index];
+                    if (i < min_size_index())
+                        i = min_size_index();
+                    return array_[i - min_size_index()];
                 }
 
                 // number of free lists
@@ -82,19 +82,20 @@ namespace foonathan
                 // maximum supported node size
                 std::size_t max_node_size() const noexcept
                 {
-                    return AccessPolicy::size_from_index(no_elements_ + min_size_index - 1);
+                    return AccessPolicy::size_from_index(no_elements_ + min_size_index() - 1);
                 }
 
             private:
-                static const std::size_t min_size_index;
+                // computed on use: a static data member of a class template is initialized in no particular order,
+                // so an array with static storage duration could be built before it
+                static std::size_t min_size_index() noexcept
+                {
+                    return AccessPolicy::index_from_size(FreeList::min_element_size);
+                }
 
                 FreeList*   array_;
                 std::size_t no_elements_;
             };
-
-            template <class FL, class AP>
-            const std::size_t free_list_array<FL, AP>::min_size_index =
-                AP::index_from_size(FL::min_element_size);
 
             // AccessPolicy that maps size to indices 1:1
             // creates a free list for each size!
